@@ -21,11 +21,12 @@ def build(v, suite, ops, rnd, tier, h, d):
         tdb = s["tdb"]
         for name, is_table, kd, t, ix in index_objects(s):
             root = tdb.root(name)
-            keys = bf.cut_keys(tdb, root, len(kd), rnd, budget)
+            keys = bf.cut_keys(tdb, root, len(kd), rnd, bf.budget_for(len(tdb.order[root]), budget))
             kw = dict(obj=name) if is_table else dict(index=name)
 
             def mk(k):
-                return [(val, kd[i][0], kd[i][1]) for i, val in enumerate(k[:len(kd)])]
+                # columns beyond the index definition (a key longer than the stored records): default collation, ascending
+                return [(val, kd[i][0] if i < len(kd) else "binary", kd[i][1] if i < len(kd) else False) for i, val in enumerate(k)]
             for n, k in enumerate(keys):
                 cls = "%s/%s" % (s["name"], name)
                 ops.add(s["name"], "scan_min", key=mk(k), meta={"cls": "scan_min/" + cls}, **kw)
